@@ -9,6 +9,7 @@ static Json::Value genC01(Rng& rng) {
   o.pidZeroP = rng.pick({0.0, 0.15, 0.4});
   o.killFailP = rng.pick({0.0, 0.25, 0.6});
   o.churnP = rng.pick({0.2, 0.6});
+  o.emptyOnFreezeP = 0.5;
   return genKillPlan(rng, o);
 }
 
